@@ -238,6 +238,72 @@ theorem shuffle_is_perm {α : Type} [DecidableEq α] (xs out : List α) (s r : S
       simp only [hj] at h
       exact (ih _ _ h).trans (swap_perm xs (i + 1) j)
 
+/-! ## Draws only move forward -/
+
+private theorem int63_step (s r : Stream) (v : Nat) (h : int63 s = some (v, r)) : ∃ u, s = u :: r := by
+  cases s with
+  | nil => simp [int63, uint64] at h
+  | cons u t =>
+    simp only [int63, uint64, Option.map_some, Option.some.injEq, Prod.mk.injEq] at h
+    exact ⟨u, by rw [h.2]⟩
+
+private theorem rejectLoop_forward (draw : Stream → Option (Nat × Stream))
+    (hd : ∀ s v r, draw s = some (v, r) → ∃ u, s = u :: r) (max fuel : Nat) (s r : Stream) (v : Nat)
+    (h : rejectLoop draw max fuel s = some (v, r)) : r <:+ s ∧ r.length < s.length := by
+  induction fuel generalizing s with
+  | zero => simp [rejectLoop] at h
+  | succ f ih =>
+    unfold rejectLoop at h
+    cases hdraw : draw s with
+    | none => simp [hdraw] at h
+    | some p =>
+      obtain ⟨v1, r1⟩ := p
+      obtain ⟨u, hu⟩ := hd s v1 r1 hdraw
+      simp only [hdraw] at h
+      split at h
+      · obtain ⟨h1, h2⟩ := ih r1 h
+        subst hu
+        exact ⟨List.IsSuffix.trans h1 (List.suffix_cons u r1), by simp; omega⟩
+      · simp only [Option.some.injEq, Prod.mk.injEq] at h
+        subst hu
+        rw [← h.2]
+        exact ⟨List.suffix_cons u r1, by simp⟩
+
+/-- **No word of the stream is used twice**: a successful `Int63n(n)` (`n > 0`) returns as unread
+rest a *proper suffix* of the stream it was given — the generator only moves forward, so successive
+draws read disjoint stretches of the stream (what makes "same seed ⇒ same sequence" compositional). -/
+theorem int63n_moves_forward (n : Nat) (s r : Stream) (v : Nat) (h : int63n n s = some (v, r)) :
+    r <:+ s ∧ r.length < s.length := by
+  unfold int63n at h
+  split at h
+  · cases hi : int63 s with
+    | none => simp [hi] at h
+    | some p =>
+      obtain ⟨v1, r1⟩ := p
+      simp only [hi, Option.map_some, Option.some.injEq, Prod.mk.injEq] at h
+      obtain ⟨u, hu⟩ := int63_step s r1 v1 hi
+      subst hu; rw [← h.2]
+      exact ⟨List.suffix_cons u r1, by simp⟩
+  · cases hl : rejectLoop int63 (two63 - 1 - two63 % n) (s.length + 1) s with
+    | none => simp [hl] at h
+    | some p =>
+      obtain ⟨v1, r1⟩ := p
+      simp only [hl, Option.map_some, Option.some.injEq, Prod.mk.injEq] at h
+      rw [← h.2]
+      exact rejectLoop_forward int63 (fun s v r h => int63_step s r v h) _ _ s r1 v1 hl
+
+/-- `prng.Int63n(n)` with `n ≤ 0` reads nothing; with `n > 0` it moves forward. -/
+theorem pInt63n_forward (n : Int) (s r : Stream) (v : Nat) (h : pInt63n n s = some (v, r)) :
+    r <:+ s ∧ (0 < n → r.length < s.length) ∧ (n ≤ 0 → r = s) := by
+  unfold pInt63n at h
+  split at h
+  · simp only [Option.some.injEq, Prod.mk.injEq] at h
+    exact ⟨by rw [h.2]; exact List.suffix_refl _, fun hp => by omega, fun _ => h.2.symm⟩
+  · obtain ⟨h1, h2⟩ := int63n_moves_forward _ s r v h
+    exact ⟨h1, fun _ => h2, fun hn => by omega⟩
+
+example : int63n 10 [9223372036854775807, 42] = some (2, []) := by decide
+
 /-! ## Concurrent use -/
 
 /-- **Safe for concurrent use, given atomic calls**: for every lock order the words handed out are,
